@@ -182,3 +182,30 @@ CONTRACTS["programs:ProgramSet._write_spending#one_program"] = dict(
              ("C16.assumption_units_and_uncertainty_columns_are_always_written", "WRITTEN[0].assumption_heading == 'Assumption' and WRITTEN[0].write_assumption == True and WRITTEN[0].write_units == True and WRITTEN[0].write_uncertainty == True"),
              ("C16.the_next_table_starts_where_this_one_ended", "next_row == 10")],
     defined_props=["C16"])
+
+
+# ---- the targeting sheet writer, one program row (body of the loop over programs in ProgramSet._write_targeting): code name and label in the first two columns, then a
+# `Y` in the column of every targeted population / compartment and an `N` in the column of every other one -- the cells the reader above turns back into the targets
+def _env_write_target_row(it):
+    from pyvc.interp import PyObjV
+    from pyvc.core import Opaque
+    from pyvc import source
+
+    pm = source.load("programs")
+    prog = PyObjV("Program", pm, {"name": "prog", "label": "A program", "target_pops": ["ch"], "target_comps": ["sus", "rec"]})
+    self = PyObjV("ProgramSet", pm, {"name": "ps", "pops": {"ad": {"label": "Adults"}, "ch": {"label": "Children"}}, "programs": {"prog": prog}, "_references": {"reach_pop": {}}, "_formats": Opaque("formats")})
+    return {"self": self, "prog": prog, "row": 4, "widths": {}, "pop_col": {"ad": 2, "ch": 3}, "comp_col": {"sus": 5, "inf": 6, "rec": 7}, "comps_to_write": {"sus": {}, "inf": {}, "rec": {}},
+            "sheet": PyObjV("Worksheet", pm, {"CELLS": {}, "name": "Program targeting"})}
+
+
+def _rec_cell(it, row, col, value=None, *a, **k):
+    it.stub_receiver.fields["CELLS"][(row, col)] = value
+
+
+CONTRACTS["programs:ProgramSet._write_targeting#one_program"] = dict(
+    schema=schema, fragment={"iter": "self.programs.values()", "body_contains": "reach_pop"}, make_env=_env_write_target_row,
+    call_stubs={"sheet.write": _rec_cell, "sheet.data_validation": (lambda it, *a, **k: None), "sheet.conditional_format": (lambda it, *a, **k: None), "update_widths": (lambda it, *a, **k: None), "xlrc": (lambda it, *a, **k: "A1")},
+    ensures=[("C16.the_row_starts_with_code_name_and_label", "sheet.CELLS[4, 0] == 'prog' and sheet.CELLS[4, 1] == 'A program'"),
+             ("C16.targeted_populations_and_compartments_are_marked_y_and_all_others_n", "sheet.CELLS[4, 2] == 'N' and sheet.CELLS[4, 3] == 'Y' and sheet.CELLS[4, 5] == 'Y' and sheet.CELLS[4, 6] == 'N' and sheet.CELLS[4, 7] == 'Y'"),
+             ("C16.one_cell_per_listed_population_and_compartment_and_the_next_program_goes_on_the_next_row", "len(sheet.CELLS) == 7 and row == 5")],
+    defined_props=["C16"])
